@@ -30,6 +30,7 @@ type scenario struct {
 	Name   string   `json:"name"`
 	Prefix []ops.Op `json:"-"`
 	Create bool     `json:"create,omitempty"`
+	Reopen bool     `json:"reopen,omitempty"` // the watched call is db.Open on an EXISTING database (a restart)
 	Op     ops.Op   `json:"op"`
 
 	preM, postM *refmodel.Model
@@ -86,6 +87,9 @@ func scenarios(thorough bool) []*scenario {
 	}
 	rotated = append(rotated, put("a", "a-one"))
 	out = append(out, mk("many-versions/new-version", rotated, put("rot", "rot-21")))
+	// a restart: Open of a database that exists, under the same faults (a read that fails, a kill): whatever
+	// Open reports, the file keeps holding what it held
+	out = append(out, &scenario{Name: "reopen-existing-database", Prefix: three, Create: true, Reopen: true})
 	if thorough {
 		bigp := []ops.Op{{Kind: ops.Put, Name: "big", Value: big(3<<20, 1)}, {Kind: ops.Put, Name: "big", Value: big(2<<20, 2)}, put("a", "a-one"), put("a", "a-two")}
 		out = append(out,
@@ -130,7 +134,7 @@ func TestC04(t *testing.T) {
 		os.MkdirAll(sdir, 0o700)
 		live := filepath.Join(sdir, "db")
 		m := refmodel.New()
-		if !sc.Create {
+		if !sc.Create || sc.Reopen {
 			d, err := realdb.Open(live, realdb.DummyKey(key))
 			if err != nil {
 				t.Fatal(err)
@@ -143,8 +147,10 @@ func TestC04(t *testing.T) {
 			}
 			sc.base, _ = os.ReadFile(live)
 			sc.pre, sc.preM = m.Canon(), m.Clone()
-			if res := ops.ApplyModel(m, nil, true, sc.Op); res.Class != refmodel.OK {
-				t.Fatalf("scenario %s: model refuses the operation", sc.Name)
+			if !sc.Reopen {
+				if res := ops.ApplyModel(m, nil, true, sc.Op); res.Class != refmodel.OK {
+					t.Fatalf("scenario %s: model refuses the operation", sc.Name)
+				}
 			}
 			sc.post, sc.postM = m.Canon(), m.Clone()
 		} else {
@@ -170,6 +176,9 @@ func TestC04(t *testing.T) {
 		}
 		r.Eval(1)
 		for _, complaint := range crashenum.Protocol(res.Events, live) {
+			if sc.Reopen {
+				break // (opening an existing database saves nothing: there is no write protocol to follow)
+			}
 			r.Violation("protocol", si, fmt.Sprintf("scenario %s: %s", sc.Name, complaint), map[string]any{"trace": trace})
 		}
 		if st := stateOf(live, key); st != sc.post {
@@ -210,7 +219,7 @@ func TestC04(t *testing.T) {
 		}
 	}
 	r.Exhaustive(true)
-	r.Require("overlapping_save_rounds_with_a_flaky_file_system", "overlapping_save_rounds", "kill_points", "errors_injected", "short_writes", "post_kill_pre_state", "post_kill_post_state", "errors_reported_by_call", "syscalls_traced")
+	r.Require("failed_opens_of_an_existing_database", "overlapping_save_rounds_with_a_flaky_file_system", "overlapping_save_rounds", "kill_points", "errors_injected", "short_writes", "post_kill_pre_state", "post_kill_post_state", "errors_reported_by_call", "syscalls_traced")
 	r.Rule("for each mutating operation kind (database creation, first put, new version, activate, delete-version, delete; thorough: also multi-megabyte databases and edge states) the fault-free system-call trace of the save is recorded, and EVERY watched call of it is visited as kill-before, kill-after, each errno of a per-syscall list, and for writes as short write (1, half, len-1 bytes) with and without a kill. Distinct = (scenario, syscall, fault kind). exhaustive refers to the syscall-boundary enumeration of each recorded trace")
 }
 
@@ -359,6 +368,14 @@ func visit(r *evid.Run, child, dir, key string, j job) {
 		return
 	}
 	r.Count("errors_reported_by_call", 1)
+	if sc.Reopen {
+		// Open failed (and the child tried once more): the database is what it was
+		r.Count("failed_opens_of_an_existing_database", 1)
+		if fileState != sc.pre {
+			r.Violation("failed-open-changed-the-database", -1, fmt.Sprintf("%s: Open reported %q (the retry: %s %s); afterwards the file holds %s, it held %s", what, rep.Err, rep.RetryClass, rep.RetryErr, fileState, sc.pre), detail)
+		}
+		return
+	}
 	if sc.Create {
 		// pre-call state = no database; the failed creation must not leave a half-made live file behind
 		if _, err := os.Stat(live); err == nil {
